@@ -91,7 +91,7 @@ theorem enum_ok (E : Ext) (hU : E.U.AsciiCorrect) (cfg : Cfg) (targetOs : List S
   refine enum_clauses E hU .python (cfg, st) targetOs c r attrs ident gens vs e acronyms _ _ hparse
     (by simp [C01.enumKeys, hi]) ?_
   intro hsc hk
-  exact C02.C02_backend .python E acronyms _ hsc hk cfg st d st' hd
+  exact C02.C02_backend .python E hU acronyms _ hsc hk cfg st d st' hd
 
 theorem block_of (E : Ext) (cfg : Cfg) {items emitted : List RustItem} {blocks : List Str}
     {st0 stN : St} (hperm : items.Perm emitted) (ht : Threaded (writeItem E cfg) items st0 blocks stN)
